@@ -130,6 +130,12 @@ def gen(rng, tier, index):
             version += 1
             pad = (pad + rng.choice([1, 1, 2, 3])) % 9
             hist.append(["load", rng.randrange(len(SERVER_SEEDS)), ["edit", version, pad, rng.choice([1, 1, 2, 5, 3600])]])
+        elif r < 0.80:
+            # load, then (same process) the source is replaced and the namespace RELOADED: the cache is rewritten by a
+            # compiler that runs in a process already holding the previous version of the namespace
+            version += 1
+            pad = (pad + rng.choice([1, 1, 2, 3])) % 9
+            hist.append(["load", rng.randrange(len(SERVER_SEEDS)), ["reload", version, pad, rng.choice([1, 2, 5, 3600])]])
         else:
             hist.append(["load", rng.randrange(len(SERVER_SEEDS)), None])
     hist.append(["load", rng.randrange(len(SERVER_SEEDS)), None])
@@ -175,7 +181,7 @@ def describe():
                  "mtimes (os.utime with controller-chosen seconds)", "interpreter start (fork of a booted interpreter of "
                  "the chosen hash seed)"],
         "fault_kinds": ["crash_exit_during_cache_write", "oserror_during_cache_write", "damage_truncate", "damage_empty",
-                        "damage_header", "damage_delete", "source_edit", "source_edit_during_load", "clock_jump_back", "hash_seed_change"],
+                        "damage_header", "damage_delete", "source_edit", "source_edit_during_load", "reload_in_process", "clock_jump_back", "hash_seed_change"],
         "assumptions": ["a crash leaves a prefix of the intended bytes (what the property states); reordered or zero-filled "
                         "blocks are not injected", "same-second-same-size source edits are outside the statement",
                         "a load that was itself crashed or given an OSError is not judged, only the loads after it"],
@@ -366,6 +372,13 @@ def _run(workload, scratch):
             req["crash"] = crash = None
             req["edit_during"] = edit
             pre_ref = reference(hsi)          # this load compiles the text that is on disk NOW
+        reload_ = None
+        if crash and crash[0] == "reload":
+            _, r_version, r_pad, r_dt = crash
+            r_text = ns_gen.render(desc, r_version).rstrip("\n") + ("\n;" + "p" * r_pad if r_pad else "") + "\n"
+            reload_ = {"path": src_path, "text": r_text, "mtime": clock + r_dt}
+            req["crash"] = crash = None
+            req["reload"] = reload_
         pre_stat = src_stat()
         rep = _incarnate(SERVER_SEEDS[hsi], req)
         extra["incarnations"] += 1
@@ -380,6 +393,27 @@ def _run(workload, scratch):
             after_crash = True
             writer_hs = hsi
             continue            # (R) a load that was itself crashed is not judged
+        if reload_:
+            # the process that reloaded is not judged (an in-process reload legitimately keeps old state); what it
+            # leaves behind is: the cache must be valid for the new text, and the following fresh loads are judged
+            if not rep.get("ok"):
+                sig = f"{ID}/import-failed:reload:{str(rep.get('error')).split(':')[1].strip() if ':' in str(rep.get('error')) else rep.get('error')}"
+                return R.verdict("violation", sig, dict(det, report={k_: rep.get(k_) for k_ in ("error", "path", "trace")}),
+                                 faults=faults, extra=extra)
+            fault("reload_in_process")
+            src_version = r_version
+            clock += r_dt
+            log.append(["reloaded-in-process", r_version, len(r_text), clock])
+            valid_after, why_after = _cache_valid(cache_path, src_path)
+            if not valid_after:
+                return R.verdict("violation", f"{ID}/no-valid-cache-left-behind:after-reload:{why_after}", det,
+                                 faults=faults, extra=extra)
+            writer_hs = hsi
+            payload_version = src_version
+            payload_stat = src_stat()
+            tampered = False
+            after_crash = False
+            continue
         # ---- judged load
         if not rep.get("ok"):
             sig = f"{ID}/import-failed:cache-{why}:{str(rep.get('error')).split(':')[0]}"
